@@ -99,11 +99,109 @@ async def _session(case: dict) -> dict:
     return res
 
 
+def _sync_session(case: dict) -> dict:
+    """same scenario on the blocking SSLStreamTransport over a real socketpair, single-threaded"""
+    import math
+
+    from easynetwork.lowlevel.api_sync.transports.socket import SSLStreamTransport
+
+    from ..synctls import TLSPipe, selector_factory_for
+    from ..syncworld import HarnessHang, SpinGuard, World, virtual_clock
+
+    world = World()
+    peer = tlspeer.TLSPeer("server" if case["sut_role"] == "client" else "client", case.get("version", "1.3"))
+    pipe = TLSPipe(world, peer, case.get("frag_to_sut", []))
+    cut = case["cut"]
+    pipe.cut_at = None if cut >= NO_CUT else cut
+    records = [tlspeer.payload("peer", i, n) for i, n in enumerate(case["records"])]
+    expected = b"".join(records)
+    for rec in records:
+        peer.write(rec)
+    if case.get("peer_closes", True):
+        peer.close()
+    else:
+        pipe.eof_when_drained = True
+    ctx, kw = tlsharness.make_sut_kwargs(case["sut_role"], case.get("version", "1.3"))
+    res: dict[str, Any] = {"phase": "handshake", "received": b"", "end": None, "error": None}
+    transport = None
+    try:
+        with virtual_clock(world):
+            try:
+                try:
+                    transport = SSLStreamTransport(
+                        pipe.sut_sock,
+                        ctx,
+                        math.inf,
+                        handshake_timeout=1e7,
+                        shutdown_timeout=5.0,
+                        standard_compatible=case.get("standard_compatible", True),
+                        selector_factory=selector_factory_for(pipe),
+                        **kw,
+                    )
+                except OSError as exc:
+                    res["end"] = "wrap-error"
+                    res["error"] = type(exc).__name__
+                    res["wrap_closed_transport"] = pipe.sut_sock.fileno() < 0
+                    return res
+                res["phase"] = "data"
+                received = bytearray()
+                sizes = case["recv_sizes"]
+                i = 0
+                while True:
+                    size = sizes[i % len(sizes)]
+                    i += 1
+                    try:
+                        if case["recv_mode"] == "recv":
+                            data = transport.recv(size, math.inf)
+                        else:
+                            buf = bytearray(size)
+                            n = transport.recv_into(buf, math.inf)
+                            data = bytes(buf[:n])
+                    except OSError as exc:
+                        res["end"] = "error"
+                        res["error"] = type(exc).__name__
+                        break
+                    if not data:
+                        res["end"] = "eof"
+                        break
+                    received += data
+                    if i > len(expected) + 50:
+                        raise HarnessError("reader loop does not end")
+                res["received"] = bytes(received)
+                transport.close()
+                res["closed"] = transport.is_closed()
+                for _ in range(1000):
+                    if not pipe.pump():
+                        break
+            except HarnessHang as exc:
+                raise Violation("deadlock", f"blocking TLS session hangs: {exc}") from exc
+            except SpinGuard as exc:
+                raise Violation("deadlock", f"blocking TLS session spins: {exc}") from exc
+        return res
+    finally:
+        res["stream_to_sut"] = bytes(pipe.all_to_sut)
+        res["delivered"] = pipe.delivered
+        res["peer_done"] = peer.close_sent and not peer.to_write
+        res["undelivered"] = len(pipe.to_sut)
+        res["expected"] = expected
+        res["peer_saw_close_notify"] = peer.zero_return
+        res["peer_error"] = repr(peer.error) if peer.error else None
+        pipe.close()
+
+
+def run_sync_case(case: dict) -> Outcome:
+    return _judge(case, _sync_session(case))
+
+
 def run_async_case(case: dict) -> Outcome:
     try:
         r = run_virtual(_session, case)
     except Deadlock as exc:
         raise Violation("deadlock", f"session did not end: {exc}") from exc
+    return _judge(case, r)
+
+
+def _judge(case: dict, r: dict) -> Outcome:
     cut = case["cut"]
     std = case.get("standard_compatible", True)
     stream = r["stream_to_sut"]
@@ -259,6 +357,8 @@ CHECK = Check(
     layers=[
         Layer("async-enum", None, run_async_case, {"quick": 0, "thorough": 0}, enumerate=enum_offsets),
         Layer("async", st_async_case, run_async_case, {"quick": 1200, "thorough": 4000}),
+        Layer("sync-enum", None, run_sync_case, {"quick": 0, "thorough": 0}, enumerate=enum_offsets),
+        Layer("sync", st_async_case, run_sync_case, {"quick": 600, "thorough": 3000}),
     ],
     assumptions=[
         "peer is the stdlib ssl.SSLObject; the live stream differs from run to run in content but not in record structure except for ECDSA signature length (so enumerated offsets beyond the end mean 'not truncated', decided per run from the live stream)",
